@@ -1,5 +1,6 @@
 (** C19 — codec libraries invert each other and are total on hostile input: property theorems only. *)
-From ChibiV Require Import C19.Prims C19.Base64 C19.Base64Proofs C19.IntCodec C19.IntCodecProofs
+From ChibiV Require Import C19.Prims C19.Base64 C19.Base64Proofs C19.Base64Stream C19.Base64StreamProofs
+  C19.IntCodec C19.IntCodecProofs C19.AccTable Gen.C19_AccTable C19.AccTableProofs
   C19.Json C19.JsonProofs C19.JsonValueProofs C19.JsonTextProofs C19.QP C19.QPProofs C19.Uri C19.UriProofs.
 Local Open Scope Z_scope.
 
@@ -105,3 +106,55 @@ Theorem uri_roundtrip_refuted :
   uri_dec false (uri_encode (fun _ => false) false [8364]) = Some [32; 97; 99].
 Proof. exact UriProofs.uri_roundtrip_refuted. Qed.
 Print Assumptions uri_roundtrip_refuted.
+
+(** round 2 ------------------------------------------------------------------------------------------------ *)
+
+(** base64-decode on a binary port (chunk buffer of N bytes, pending sextets re-encoded into the head of the next
+    chunk): for EVERY chunk size >= 4 and EVERY input — white space, CR LF, junk, padding at any position relative to a
+    chunk boundary — the loop terminates and writes exactly what the one-shot decoder returns *)
+Theorem stream_decode_equals_decode : forall (N : nat) (input : list Z),
+  (4 <= N)%nat -> b64_stream_decode N input = Some (b64_decode input).
+Proof. exact Base64StreamProofs.stream_decode_equals_decode. Qed.
+Print Assumptions stream_decode_equals_decode.
+
+(** every round's output fits the dst buffer of 3*((3+N)>>2) bytes the port decoder allocates once *)
+Theorem stream_decode_chunk_fits : forall (N : nat) (chunk : list Z), length chunk = N ->
+  let '(out, _, (c1, c2, c3)) := dec_k chunk OUTSIDE OUTSIDE OUTSIDE in
+  Z.of_nat (length (out ++ finish c1 c2 c3)) <= dst_len (Z.of_nat N).
+Proof. exact Base64StreamProofs.stream_decode_chunk_fits. Qed.
+Print Assumptions stream_decode_chunk_fits.
+
+(** base64-encode on a binary port: for every chunk size that is a positive multiple of 3, = the one-shot encoder *)
+Theorem stream_encode_equals_encode : forall (n : nat) (input : list Z),
+  (0 < n)%nat -> b64_stream_encode (3 * n) input = Some (b64_encode input).
+Proof. exact Base64StreamProofs.stream_encode_equals_encode. Qed.
+Print Assumptions stream_encode_equals_encode.
+
+(** ... and the pinned chunk size 2048 is refuted (padding in mid-stream; the text no longer decodes to the input) *)
+Theorem stream_encode_chunk_2048_refuted :
+  exists input, b64_stream_encode 2048 input <> Some (b64_encode input) /\
+                option_map b64_decode (b64_stream_encode 2048 input) <> Some input.
+Proof. exact Base64StreamProofs.stream_encode_chunk_2048_refuted. Qed.
+Print Assumptions stream_encode_chunk_2048_refuted.
+
+(** base64-encode-header: encoded words =?name?B?w?= separated by nl TAB; the payloads concatenated are the encoding *)
+Theorem base64_header_words : forall (name bs : list Z) (start_col max_col : Z) (nl : list Z),
+  let prefix := [61; 63] ++ name ++ [63; 66; 63] in
+  0 < round4 (round4 (max_col - (2 + Z.of_nat (length prefix))) - start_col) ->
+  exists words,
+    b64_header name bs start_col max_col nl = join (nl ++ [9]) (map (fun w => prefix ++ w ++ [63; 61]) words) /\
+    concat words = b64_encode bs.
+Proof. exact Base64StreamProofs.header_words. Qed.
+Print Assumptions base64_header_words.
+
+(** every row of the accessor table REGENERATED from lib/scheme/bytevector.stub (integer and ieee, ref and set!,
+    native and explicit endianness) asserts exactly the window it accesses: it is the model accessor of its width *)
+Theorem accessor_table_in_bounds : forall e, In e acc_table ->
+  forall (big : bool) (bv : list Z) (k v : Z),
+    acc_ref e big bv k = bv_ref (a_width e) (a_signed e) big bv k /\
+    acc_set e big bv k v = bv_set (a_width e) big bv k v /\
+    (acc_ref e big bv k <> None <-> 0 <= k /\ k + Z.of_nat (a_width e) <= Z.of_nat (length bv)) /\
+    (acc_set e big bv k v <> None <-> 0 <= k /\ k + Z.of_nat (a_width e) <= Z.of_nat (length bv)) /\
+    a_decl_width e = a_width e /\ a_decl_kind e = a_kind e /\ (0 < a_width e)%nat.
+Proof. exact AccTableProofs.accessor_table_in_bounds. Qed.
+Print Assumptions accessor_table_in_bounds.
